@@ -153,6 +153,45 @@ inductive Expr where
   | or (a b : Expr)
   deriving DecidableEq, Repr
 
+/-! ### unparenthesised operator sequences: `[NOT]* a₀ (AND|OR) [NOT]* a₁ …` -/
+
+inductive BinOp where
+  | and | or
+  deriving DecidableEq, Repr
+
+def BinOp.mk : BinOp → Expr → Expr → Expr
+  | .and => .and
+  | .or => .or
+
+def nots : Nat → Expr → Expr
+  | 0, e => e
+  | k + 1, e => .not (nots k e)
+
+/-- how the rpsl crate's grammar reads the sequence (grammar.pest:344-348:
+`expr = term AND expr | term OR? expr | NOT expr | term`): right-nested, all operators of equal
+precedence, and a `NOT` extends over everything to its right -/
+def parseCrate : Nat × Expr → List (BinOp × Nat × Expr) → Expr
+  | (k, a), [] => nots k a
+  | (k, a), (op, x) :: rest => nots k (op.mk a (parseCrate x rest))
+
+/-- RFC 2622 §5.4: "NOT has the highest precedence, followed by AND, and then OR".  Returns the
+current AND-group and the already finished OR-tail. -/
+def parseRfcAux : Nat × Expr → List (BinOp × Nat × Expr) → Expr × Option Expr
+  | (k, a), [] => (nots k a, none)
+  | (k, a), (op, x) :: rest =>
+    match parseRfcAux x rest with
+    | (g, t) =>
+      match op with
+      | .and => (.and (nots k a) g, t)
+      | .or => (nots k a, some (match t with
+          | none => g
+          | some t => .or g t))
+
+def parseRfc (first : Nat × Expr) (rest : List (BinOp × Nat × Expr)) : Expr :=
+  match parseRfcAux first rest with
+  | (g, none) => g
+  | (g, some t) => .or g t
+
 /-! ### Outcomes -/
 
 /-- why a resolver failed (`Err`), as far as the harness can observe it -/
